@@ -298,6 +298,23 @@ type Res = Vec<Option<Vec<(String, bool, String)>>>;
 fn curve_work<G: Cv>(sub: &[&E], o: &Opts, start: std::time::Instant, deltas_n: usize) -> (Res, Res) {
     let env = Env::<G>::new(4);
     let st = setup::<G::ScalarField>(o.seed);
+    // control: the fixed circuit without any expression constraint must prove and verify; if it
+    // does not, completeness / commitments are broken (C01/C13's business) and the probes say nothing
+    let commitments_ok = (0..2).all(|j| {
+        use ark_ec::CurveGroup;
+        let want = (crate::curves::ref_mul(&env.pc.B, &st.vals[j]) + crate::curves::ref_mul(&env.pc.B_blinding, &st.blinds[j])).into_affine();
+        crate::evidence::guarded(|| {
+            let mut t = Transcript::new(b"c15-control");
+            let mut p = Prover::new(&env.pc, &mut t);
+            p.commit(st.vals[j], st.blinds[j]).0
+        })
+        .map(|c| c == want)
+        .unwrap_or(false)
+    });
+    if !commitments_ok || run_set::<G>(&env, &st, &[], o.seed) != Ok(true) {
+        println!("C15 note ({}): the fixed circuit is not accepted or its commitments are not v*B + r*B_blinding (C01/C13's business); probes skipped on this curve", G::NAME);
+        return (vec![], vec![]);
+    }
     let chunks: Vec<Vec<&E>> = sub.chunks(32).map(|c| c.to_vec()).collect();
     let acc = par_run(&chunks, start, o.budget, |_, ch| {
         let items: Vec<(&E, G::ScalarField)> = ch.iter().map(|e| (*e, den(e, &st.vals, &st.sc))).collect();
